@@ -153,7 +153,9 @@ class SymbolicRT:
         if ct == "double":
             return K.kfloat(v)
         if ct == "float":
-            raise K.HarnessError("float32 store not modelled symbolically (handled by the FP query)")
+            from .fp import FPVal, F32
+
+            return FPVal.of(v, F32)
         return v
 
     def cast(self, ct: str, v: Any) -> Any:
@@ -164,7 +166,9 @@ class SymbolicRT:
         if ct == "double":
             return K.kfloat(v)
         if ct == "float":
-            raise K.HarnessError("float32 cast not modelled symbolically (handled by the FP query)")
+            from .fp import FPVal, F32
+
+            return FPVal.of(v, F32)
         if ct == "bint":
             return K.kbool(v)
         return v
